@@ -1,0 +1,30 @@
+//go:build verif
+
+package parser
+
+// VerifParserState is a copy of the parser's per-call and per-holder fields,
+// exposed to the verification harness only (build tag verif).
+type VerifParserState struct {
+	TokensSet    bool
+	CurrentPos   int
+	Depth        int
+	CtxSet       bool
+	PositionsLen int
+	PositionsSet bool
+	Strict       bool
+	Dialect      string
+}
+
+// VerifState returns the parser's current internal state.
+func (p *Parser) VerifState() VerifParserState {
+	return VerifParserState{
+		TokensSet:    p.tokens != nil,
+		CurrentPos:   p.currentPos,
+		Depth:        p.depth,
+		CtxSet:       p.ctx != nil,
+		PositionsLen: len(p.positions),
+		PositionsSet: p.positions != nil,
+		Strict:       p.strict,
+		Dialect:      p.dialect,
+	}
+}
